@@ -78,7 +78,7 @@ def _rebuild_connection(tok, readable, writable):
 def _export(sim, ofd):
     """dup an open file description for transfer to another process; returns a token"""
     me = sim.me()
-    child = sim.spawning
+    child = getattr(me, 'spawning', None)      # per simulated thread: several threads may be spawning at once
     if child is not None:
         # spawn: the descriptor is inherited by the child at once
         fd = kernel.install(child, ofd)
@@ -184,16 +184,16 @@ class SimProcess:
             sim.sleep(sd * sim.frng.random())
         child = sim.new_proc(f'{me.name}.{me.nspawn}', me.proc)
         child.name_hint = self._name
-        sim.spawning = child
+        me.spawning = child
         try:
             blob = ForkingPickler.dumps(self)
         except BaseException:
-            sim.spawning = None
+            me.spawning = None
             kernel.close_all_fds(sim, child)
             child.state = 'reaped'
             child.exitcode = 1
             raise
-        sim.spawning = None
+        me.spawning = None
         self._proc = child
         self._parent = me.proc
         me.proc.children.append(self)
